@@ -714,6 +714,32 @@ theorem missing_parent_link_move_witness :
     (diffTrees (witP true) (phTree 0 true) (phTree 10 true) witDice [] true).edits = [] := by
   decide +kernel
 
+/-! ### the leaf predicate shared by diff and `==` (finite decision tables, decided completely) -/
+
+/-- **diff's 'ignored values' are exactly `==`'s 'no value' set** over the nine scalar value classes
+    (absent, None, False, [], 0, "", 1, "x", True), for the tables extracted from `_get_non_expression_leaves` and
+    `Expr.__hash__` on this run.  Finite table, decided completely. -/
+theorem diff_leaf_skip_matches_eq :
+    ∀ v ∈ ValClass.all, SqlglotModel.Generated.C20.leafPolicy.diffSkips v = SqlglotModel.Generated.C20.leafPolicy.eqIgnores v := by
+  decide +kernel
+
+/-- consequently, for every pair of values of one argument, the Keep-vs-Update test sees a difference exactly when
+    `==` does (81 pairs, decided completely) — what `EqcCongr` needs from the leaf dictionaries -/
+theorem leaf_difference_seen_iff_eq_sees :
+    ∀ a ∈ ValClass.all, ∀ b ∈ ValClass.all,
+      sameUnder SqlglotModel.Generated.C20.leafPolicy.diffSkips a b =
+        sameUnder SqlglotModel.Generated.C20.leafPolicy.eqIgnores a b := by
+  decide +kernel
+
+/-- **the `not value` variant breaks it**: 0 on one side, absent on the other — indistinguishable for the leaf
+    dictionaries (Keep), distinguishable for `==` (unequal trees): an empty delta for unequal trees -/
+theorem not_value_variant_witness :
+    sameUnder (notValuePolicy SqlglotModel.Generated.C20.leafPolicy.eqIgnores).diffSkips .zero .absent = true ∧
+    sameUnder (notValuePolicy SqlglotModel.Generated.C20.leafPolicy.eqIgnores).eqIgnores .zero .absent = false ∧
+    sameUnder (notValuePolicy SqlglotModel.Generated.C20.leafPolicy.eqIgnores).diffSkips .emptyStr .false_ = true ∧
+    sameUnder (notValuePolicy SqlglotModel.Generated.C20.leafPolicy.eqIgnores).eqIgnores .emptyStr .false_ = false := by
+  decide +kernel
+
 /-- constants re-extracted from sqlglot/diff.py on this run satisfy what the copy theorems need:
     the high leaf-similarity threshold and the default `f` are at most 1, and Identifier is the only ignored type -/
 theorem generated_constants_ok :
